@@ -1,7 +1,13 @@
 """copy and memory families (generators in gens.py, references in refs.py)"""
 import gens, refs
 
+def _ann_mem(op):
+    {"memcpy": refs.annotate_memcpy, "memset": refs.annotate_memset, "memzero": refs.annotate_memzero}[op.meta["fam"]](op)
+
+
 FAMILIES = {
+    "copy_violprod": dict(gen=gens.gen_copy_violprod, annotate=refs.annotate_copy, props=["C01", "C03", "C04", "C05"]),
+    "mem_violprod": dict(gen=gens.gen_mem_violprod, annotate=_ann_mem, props=["C01", "C04", "C05"]),
     "copy": dict(gen=lambda rng, tier: gens.gen_copy(rng, tier), annotate=refs.annotate_copy,
                  props=["C01", "C02", "C03", "C04", "C05", "C06", "C07", "C08"]),
     "memcpy": dict(gen=lambda rng, tier: gens.gen_memcpy(rng, tier), annotate=refs.annotate_memcpy,
